@@ -149,8 +149,8 @@ type gateEntry struct {
 
 // gate parks the caller until the driver schedules it (task-level scheduling).
 func (s *Sim) gate(g uint64) {
-	if s.cfg.GateProb <= 0 {
-		return
+	if s.cfg.GateProb <= 0 || g == s.driver {
+		return // the driver (harness observation code) is never scheduled against the product
 	}
 	s.mu.Lock()
 	if s.cfg.GateProb < 1 && !s.sched.Chance(s.cfg.GateProb) {
